@@ -1,8 +1,70 @@
 //! Extra implementation-side modes for property C05 (the shared `parse` mode lives in parse.rs).
+//!
+//! `(c05 (cmd ...) (pre x.. ...) (tail x.. ...) (alt x.. ...))` parses, with the real crate, the three
+//! argument vectors  A = pre ++ ["--"] ++ tail,  B = pre ++ ["--"] ++ alt,  C = pre ++ ["--"]
+//! against the same command and prints the three canonical results separated by ` ;; `.
+use crate::modes::parse::{build_cmd, kind_name, show_matches, EnvGuard};
 use crate::sexp::Sx;
+use std::ffi::OsString;
+use std::os::unix::ffi::OsStringExt;
+use std::panic::{catch_unwind, AssertUnwindSafe};
+
+fn os(x: &Sx) -> OsString {
+    OsString::from_vec(x.bytes())
+}
+
+/// like `parse::show_result`, but the error is not rendered (rendering belongs to C12; the help
+/// head line is outside this property's projection)
+fn show_result(r: Result<clap::ArgMatches, clap::Error>) -> String {
+    match r {
+        Ok(m) => format!("ok {}", show_matches(&m)),
+        Err(e) => {
+            let stream = if e.use_stderr() { "stderr" } else { "stdout" };
+            format!("err {} {} {}", kind_name(e.kind()), stream, e.exit_code())
+        }
+    }
+}
+
+fn c05(a: &[Sx]) -> String {
+    let mut env = EnvGuard(vec![]);
+    let cmd = match catch_unwind(AssertUnwindSafe(|| {
+        let c = build_cmd(a[0].args(), &mut env);
+        let mut probe = c.clone();
+        probe.build();
+        c
+    })) {
+        Ok(c) => c,
+        Err(_) => return "INVALID".into(),
+    };
+    let pre: Vec<OsString> = a[1].args().iter().map(os).collect();
+    let tail: Vec<OsString> = a[2].args().iter().map(os).collect();
+    let alt: Vec<OsString> = a[3].args().iter().map(os).collect();
+    let run = |extra: Option<&Vec<OsString>>| -> String {
+        let mut argv = pre.clone();
+        argv.push(OsString::from("--"));
+        if let Some(e) = extra {
+            argv.extend(e.iter().cloned());
+        }
+        let c = cmd.clone();
+        match catch_unwind(AssertUnwindSafe(|| show_result(c.try_get_matches_from(argv)))) {
+            Ok(s) => s,
+            Err(p) => {
+                let msg = p
+                    .downcast_ref::<String>()
+                    .cloned()
+                    .or_else(|| p.downcast_ref::<&str>().map(|s| s.to_string()))
+                    .unwrap_or_default();
+                format!("PANIC {}", msg.replace(['\n', '\t'], " "))
+            }
+        }
+    };
+    format!("{} ;; {} ;; {}", run(Some(&tail)), run(Some(&alt)), run(None))
+}
 
 /// Returns `Some(result)` when `head` is a mode of this file.
 pub fn dispatch(head: &str, args: &[Sx]) -> Option<String> {
-    let _ = (head, args);
-    None
+    match head {
+        "c05" => Some(c05(args)),
+        _ => None,
+    }
 }
